@@ -53,6 +53,14 @@ impl Kind {
         !matches!(self, Kind::Sized(_) | Kind::SizedAndHost(_) | Kind::SizedViaAwait100(..) | Kind::DespiteSized(..) | Kind::SizedExtraHeadWrites(_))
     }
 
+    /// the declared Content-Length when the body is framed by it
+    pub fn sized_len(self) -> Option<u64> {
+        match self {
+            Kind::Sized(n) | Kind::SizedAndHost(n) | Kind::SizedViaAwait100(n, _) | Kind::DespiteSized(n, _) | Kind::SizedExtraHeadWrites(n) => Some(n),
+            _ => None,
+        }
+    }
+
     pub fn flow_only(self) -> bool {
         matches!(
             self,
@@ -71,6 +79,11 @@ pub enum Sender {
     Flow(Flow<(), SendBody>),
     Call(Call<WithBody, ()>),
 }
+
+/// `Sender::new` answers this for a `Content-Length: 0` request whose flow goes from the head straight to the response: whether a body of
+/// zero bytes is "due" is not stated (C09), so a flow without a body state for it is as good as one whose body state is finished by the
+/// end signal; the statements about body writes are vacuous there.
+pub const NO_BODY_STATE: &str = "Content-Length: 0: the flow has no body state";
 
 pub const PATTERN_LEN: usize = (1 << 22) + 70_000;
 
@@ -184,6 +197,7 @@ impl Sender {
                             _ => Err("expected SendBody after Await100".into()),
                         }
                     }
+                    Some(SendRequestResult::RecvResponse(_)) if kind.sized_len() == Some(0) => Err(NO_BODY_STATE.into()),
                     Some(_) => Err("expected SendBody after the head".into()),
                     None => Err("head not complete after an ample write".into()),
                 }
